@@ -1409,7 +1409,8 @@ class VM:
                     return UNDEFINED
                 if key_str == "name":
                     return name
-                return _BUILTIN_ARITY.get(name.rpartition(" ")[2], 1 if name else 0)
+                arity = _BUILTIN_ARITY.get(name.rpartition(" ")[2], 1 if name else 0)
+                return max(0, arity - getattr(obj, "_js_bound_count", 0))
             return UNDEFINED
 
         return UNDEFINED
@@ -1817,6 +1818,7 @@ class VM:
         try:
             fn._js_factory = factory
             fn._js_method = key_str
+            fn._js_receiver = obj
         except AttributeError:
             pass
         return fn
@@ -1919,6 +1921,7 @@ class VM:
                 inner = getattr(fn, "_js_method", None) or getattr(fn, "_js_name", None)
                 if inner is not None:
                     bound._js_name = "bound " + inner
+                    bound._js_bound_count = len(bound_args)
 
             return bound
 
@@ -2858,6 +2861,14 @@ class VM:
             result = method(this_val, *args)
             self.stack.append(result if result is not None else UNDEFINED)
         elif callable(method):
+            if getattr(method, "_js_factory", None) is not None:
+                # A built-in method stored on another object (o.m = [].join; o.m())
+                # works on the object it is called on
+                receiver = method._js_receiver
+                if receiver is not this_val and not (
+                    isinstance(receiver, (str, int, float)) and receiver == this_val
+                ):
+                    method = self._for_receiver(method, this_val)
             result = method(*args)
             self.stack.append(result if result is not None else UNDEFINED)
         else:
